@@ -187,6 +187,83 @@ pub fn run_parsebound(seed: u64, tier: &str, out: &mut dyn FnMut(String)) {
     }
 }
 
+/// C03: the lexical rules are ORDERED (vector literal, registered instruction, integer, float, TRUE/FALSE, name).
+/// With the shipped instruction names no token falls under two rules; a host may register more (`InstructionSet::add`),
+/// and then the order decides: an instruction called `7`, `2.5`, `inf` or `TRUE` is an instruction, one called `INT[1]`
+/// is still a vector literal. `( parsec ( extra names ) code PRE POST NID )`.
+pub fn run_parsecustom(seed: u64, tier: &str, out: &mut dyn FnMut(String)) {
+    const EXTRA: [&str; 14] = ["7", "-1", "+3", "2.5", "1e3", "inf", "nan", "-0", "TRUE", "FALSE", "SQUARE", "x", "INT[1]", "BOOL[2]"];
+    let names = instruction_names();
+    let n = if tier == "thorough" { 4000 } else { 400 };
+    for case in 0..n {
+        let mut r = Rng::for_case(seed, "parsecustom", case);
+        let mut extra: Vec<String> = vec![];
+        for e in EXTRA.iter() {
+            if r.chance(1, 2) {
+                extra.push(e.to_string());
+            }
+        }
+        let mut toks: Vec<String> = vec!["(".to_string()];
+        let mut open = 1;
+        for _ in 0..3 + r.below(10) {
+            match r.below(10) {
+                0 | 1 | 2 | 3 => toks.push(r.pick(&EXTRA).to_string()),
+                4 => toks.push(r.pick(&["8", "7.0", "07", "-1.0", "infinity", "true", "NOOP", "INTEGER.+"]).to_string()),
+                5 => {
+                    toks.push("(".to_string());
+                    open += 1;
+                }
+                6 if open > 1 => {
+                    toks.push(")".to_string());
+                    open -= 1;
+                }
+                _ => {
+                    let t = gen_token(&mut r, &names);
+                    if t != "(" && t != ")" {
+                        toks.push(t);
+                    }
+                }
+            }
+        }
+        for _ in 0..open {
+            toks.push(")".to_string());
+        }
+        let code = toks.join(" ");
+        out(observe_custom(&extra, &code, PushState::new()));
+    }
+}
+
+fn nothing(_s: &mut PushState, _c: &pushr::push::instructions::InstructionCache) {}
+
+pub fn observe_custom(extra: &[String], code: &str, mut st: PushState) -> String {
+    use pushr::push::instructions::Instruction;
+    let mut iset = make_iset(false);
+    for e in extra.iter() {
+        iset.add(e.clone(), Instruction::new(nothing));
+    }
+    let pre = enc_state(&st);
+    let nid = next_node_id();
+    let ex = enc_list(&extra.iter().map(|e| enc_name(e)).collect::<Vec<_>>());
+    let res = catch_unwind(AssertUnwindSafe(|| {
+        PushParser::parse_program(&mut st, &iset, code);
+        st
+    }));
+    match res {
+        Ok(s) => format!("( parsec {} {} {} {} {} )", ex, enc_name(code), pre, enc_state(&s), nid),
+        Err(_) => format!("( parsec {} {} {} PANIC {} )", ex, enc_name(code), pre, nid),
+    }
+}
+
+pub fn replay_parsec(xs: &[Sx]) -> Option<String> {
+    let extra: Vec<String> = match xs.get(0)? {
+        Sx::List(l) => l.iter().filter_map(|x| dec_name(x)).collect(),
+        _ => return None,
+    };
+    let code = dec_name(xs.get(1)?)?;
+    let st = dec_state(xs.get(2)?)?;
+    Some(observe_custom(&extra, &code, st))
+}
+
 fn rt_item(r: &mut Rng, depth: u32, names: &[String], floats: bool) -> Item {
     if depth > 0 && r.chance(2, 5) {
         let n = r.below(5);
